@@ -41,6 +41,8 @@ type FuncContract struct {
 	File     string
 	Havoc    []string // extra components havocked by a trusted function
 	NoRead   []*Node  // read frame: locations that must not be read
+	Unshared []string // parameters that name objects no other goroutine can reach yet (exempt from lock discipline)
+	Synth    bool     // synthesised for the lock-discipline sweep (no clauses)
 }
 
 type CaseContract struct {
@@ -97,6 +99,7 @@ type Contracts struct {
 	Closed  map[string][]string    // interface -> implementing types
 	Files   []string
 	Guards  map[string]string // guarded_by table: "metrics.Metric.LabelValues" -> lock field expr
+	Discipline []string       // package directories swept by the lock-discipline check (C11)
 	Preds   map[string]*Pred
 	// opaqueRec: render recursive spec functions as uninterpreted (set only while rendering a query variant)
 	opaqueRec bool
@@ -142,9 +145,9 @@ type cline struct {
 	pos  string
 }
 
-var topKeywords = map[string]bool{"spec": true, "lemma": true, "axiom": true, "ghost": true, "func": true, "closed": true, "guarded": true, "pred": true}
+var topKeywords = map[string]bool{"spec": true, "lemma": true, "axiom": true, "ghost": true, "func": true, "closed": true, "guarded": true, "pred": true, "discipline": true}
 var clauseKeywords = map[string]bool{"requires": true, "ensures": true, "modifies": true, "loop": true, "use": true, "case": true,
-	"assert": true, "using": true, "hint": true, "havoc": true, "noread": true}
+	"assert": true, "using": true, "hint": true, "havoc": true, "noread": true, "unshared": true}
 
 func (c *Contracts) parseFile(path string) error {
 	data, err := os.ReadFile(path)
@@ -261,10 +264,17 @@ func (c *Contracts) parseFile(path string) error {
 		case "guarded":
 			// guarded metrics.Metric.LabelValues by RWMutex
 			fs := strings.Fields(rest)
+			if len(fs) == 2 && fs[1] == "atomic" {
+				c.Guards[fs[0]] = "atomic"
+				break
+			}
 			if len(fs) != 3 || fs[1] != "by" {
 				return fmt.Errorf("%s: bad guarded decl", it.pos)
 			}
 			c.Guards[fs[0]] = fs[2]
+		case "discipline":
+			// discipline ./internal/metrics ./internal/exporter ...: packages swept by the lock-discipline check
+			c.Discipline = append(c.Discipline, strings.Fields(rest)...)
 		case "func":
 			rest, props := takeProps(rest)
 			fs := strings.Fields(rest)
@@ -337,6 +347,13 @@ func (c *Contracts) parseFile(path string) error {
 				curFunc.Requires = append(curFunc.Requires, cl)
 			default:
 				curFunc.Ensures = append(curFunc.Ensures, cl)
+			}
+		case "unshared":
+			if curFunc == nil {
+				return fmt.Errorf("%s: unshared outside func", it.pos)
+			}
+			for _, n := range strings.FieldsFunc(rest, func(r rune) bool { return r == ',' || r == ' ' }) {
+				curFunc.Unshared = append(curFunc.Unshared, n)
 			}
 		case "modifies":
 			if curFunc == nil {
